@@ -29,6 +29,8 @@ T = [
  ("C01-zsh-redirect-paren-word", W("file","zsh","i0","a > (0)\n")),
  ("C01-zsh-redirect-bang-word", W("file","zsh","i0","> !1\n")),
  ("C01-zsh-dollar-hash-backquote-escape", W("file","zsh","i0","`\"$#\\$\"`")),
+ ("C01-zsh-paren-arg-after-redirect", W("file","zsh","i0","$ <<E (f)\nE\n")),
+ ("C01-zsh-special-param-subscript", W("word#2","zsh","i0","rad 1 $?[ab]\n")),
  ("C01-minify-empty-block", W("file","mksh","i0,mn","{ }\n")),
  ("C01-command-first-newline", W("cmd#0","bash","i0","case x in\nesac\n")),
  ("C01-zsh-dollar-hash-eof", W("word#1","zsh","i0","echo $#\n")),
@@ -39,6 +41,7 @@ T = [
  ("C02-minify-stale-wantnewline", W("file","bash","i0,mn","for i in $(c\n); do d; done\n", c=1)),
  ("C02-single-heredoc-comment", W("file","bash","i0,sl","cat <<EOF\nx\nEOF\nfor i; do\n#c\nt\ndone\n", c=1)),
  ("C02-binnext-heredoc-comment", W("file","posix","i0,bn","((f))|\n\"\"$(\n)\"\"<<'EOF1'#\nEOF1\n", c=1)),
+ ("C02-binnext-heredoc-indent", W("file","bash","i0,bn","<<E|\nE\nselect b do while t;do\nt\ndone\ndone", c=1)),
  ("C02-test-close-line", W("file","bash","i0","case a in b) [[ y\n]] ;; esac\n", c=1)),
  ("C02-heredoc-comment-into-body", W("file","bash","i0","<<EOF x #c\n$(a)\nEOF\n", c=1)),
  ("C02-backquote-comment-close", W("file","bash","i0","`a #c`\n", c=1)),
